@@ -17,7 +17,9 @@ TRUSTED = [
     "futures-util 0.3.34 io::BufReader::{poll_read, poll_fill_buf, consume} and io::ReadExact; the executor model `drive` "
     "(re-poll the same state-less future until Ready; an exhausted schedule answers Ready)",
     "modelled, not verified: the compiler's async fn lowering of sanitize_async_with_config and of the futures combinators above the poll "
-    "functions (sampled at sanitizer level by the sanasync batch)",
+    "functions; tied at sanitizer level by the sanasync batch: the extracted run of Mp4/San.v's programme over Base/AsyncSan.v's polls "
+    "(run_san_sched, the object of C12_mp4_sanitizer_sched_indep) must give mp4san::sanitize_async's result AND its exact number of "
+    "primitive polls under the same schedule",
     "extraction (ExtrOcamlBasic only), OCaml 4.13.1, ocaml/adapt.ml",
     "Rust harness harness/src/adapt.rs: PendingCursor (AsyncRead+AsyncSeek) and PendingNative (AsyncRead+AsyncSkip) inject Pending per "
     "primitive poll after waking the task and make no progress; manual poll loop with a no-op waker",
@@ -35,7 +37,8 @@ RULE = ("sched cases: one operation (skip with amounts 0, 1, < buffered, = buffe
         "sanasync cases: 41 MP4 inputs reaching every await point (header reads incl. 64-bit and uuid headers, ftyp/moov payload reads, skips, "
         "position, until-EOF moov/mdat length queries, truncations) through SeekSkipAdapter<PendingCursor> and through the AsyncSkip-native "
         "reader (also behind Pin<Box<_>> / Box<_>), every subset of <= 2 (quick) / <= 3 (thorough) "
-        "suspended polls over every poll index of the run, plus random dense schedules; oracle: async result == sync result. "
+        "suspended polls over every poll index of the run, plus random dense schedules; oracle: async result == sync result; "
+        "correspondence: sync result, async result and total primitive polls equal the extracted model's (run_san_sync / run_san_sched). "
         "A case is non-trivial when at least one poll is suspended; distinct = distinct case lines.")
 EXHAUSTIVE = {"quick": True, "thorough": True}
 XCHECK_N = 30
@@ -150,7 +153,9 @@ def gen(run):
 
 def same(line, impl, model):
     if line.startswith("sanasync"):
-        return True          # implementation side only (the sanitizer programme is another area's model)
+        # the model (Mp4/San.v's programme over Base/AsyncSan.v's polls) has no D7 probe flag; everything else must agree:
+        # synchronous result, asynchronous result and the number of primitive polls of the whole run
+        return impl.rsplit(" d7=", 1)[0] == model
     return impl == model
 
 
@@ -354,11 +359,39 @@ THEOREMS = [
         exists sc', run_sched A p s sc = Some (fst (run_sync (fut_view (ard A)) p s), snd (run_sync (fut_view (ard A)) p s), sc')"""),
 ]
 
+_SREQ = ["From Coq Require Import List NArith ZArith Bool.",
+         "From MS Require Import Base.Bytes Base.Outcome Base.Cursor Base.Adapters Base.Async Base.AsyncSpec Base.AsyncSan Base.AsyncSanProofs Mp4.San "
+         "Gen.Consts Props.C12s.", "From MS Require Base.Prog.", "Open Scope N_scope."]
+THEOREMS = THEOREMS + [
+    ("C12_sanitizer_ops_sched_indep", """forall (cap : N) (A : areader), sched_indep_core A ->
+  forall (X : Type) (p : Prog.prog X), (len_indep A \\/ no_len_prog p) ->
+  forall (s : bst (rst (ard A))) (sc : sch),
+    exists sc', run_san_sched cap A p s sc =
+                Some (fst (run_san_sync cap A p s), snd (run_san_sync cap A p s), sc')"""),
+    ("C12_mp4_sanitizer_sched_indep", """forall (cfg : config) (fuel : nat) (A : areader),
+  sched_indep_core A -> len_indep A ->
+  forall (s : bst (rst (ard A))) (sc : sch),
+    exists sc', run_san_sched BOXHEADER_MAX_SIZE A (sanitize_prog cfg fuel) s sc =
+                Some (fst (run_san_sync BOXHEADER_MAX_SIZE A (sanitize_prog cfg fuel) s),
+                      snd (run_san_sync BOXHEADER_MAX_SIZE A (sanitize_prog cfg fuel) s), sc')"""),
+    ("C12_mp4_sanitizer_native_sched_indep", """forall (cfg : config) (fuel : nat) (R : reader)
+  (s : bst (rst (ard (pending_reader R)))) (sc : sch),
+    exists sc', run_san_sched BOXHEADER_MAX_SIZE (pending_reader R) (sanitize_prog cfg fuel) s sc =
+                Some (fst (run_san_sync BOXHEADER_MAX_SIZE (pending_reader R) (sanitize_prog cfg fuel) s),
+                      snd (run_san_sync BOXHEADER_MAX_SIZE (pending_reader R) (sanitize_prog cfg fuel) s), sc')"""),
+]
+REQUIRES_FOR = {"C12_sanitizer_ops_sched_indep": _SREQ, "C12_mp4_sanitizer_sched_indep": _SREQ,
+                "C12_mp4_sanitizer_native_sched_indep": _SREQ}
+COQ_TARGETS = COQ_TARGETS + ["theories/Props/C12s.vo"]
+COQCHK = COQCHK + ["MS.Props.C12s"]
+
 LEVEL_TEXT = ("Theorems (Coq, for ALL schedules, by induction on the schedule): the poll functions of SeekSkipAdapter (poll_skip, "
               "poll_stream_position), of futures BufReader (poll_read, poll_fill_buf, poll_skip, poll_stream_position, poll_stream_len) over ANY "
               "schedule-independent inner reader (so any stack depth), of the forwarding impls and of futures' ReadExact, driven under an arbitrary "
               "Pending schedule, complete with exactly the value and reader state of the all-Ready run; lifted to every adaptive client programme "
-              "(C12_prog_sched_indep) that does not ask a seek-based adapter for the stream length. SeekSkipAdapter::poll_stream_len is REFUTED "
+              "(C12_prog_sched_indep) that does not ask a seek-based adapter for the stream length, and to the MP4 sanitizer's own programme "
+              "(fill_buf().is_empty(), read_exact, skip, position, length over futures BufReader(32), Mp4/San.v's sanitize_prog, every config and "
+              "input: C12_mp4_sanitizer_sched_indep). SeekSkipAdapter::poll_stream_len is REFUTED "
               "(C12_poll_stream_len_refuted, finding D7) and proved for every schedule that does not suspend its restoring seek. Plus "
               "model/implementation correspondence under every subset of <= 3 suspended polls, and sanitizer-level runs of mp4san::sanitize_async "
               "against the synchronous result. 'For every Pending schedule' is a universally quantified statement: a proof by induction on the "
@@ -366,7 +399,7 @@ LEVEL_TEXT = ("Theorems (Coq, for ALL schedules, by induction on the schedule): 
 LEVEL_NOTE = ("Trusted: Coq kernel; the poll-level models and the executor model (re-poll until Ready); the compiler's async lowering and "
               "futures-util above the poll functions are modelled/sampled, not verified; extraction and the OCaml driver; the Rust harness with its "
               "Pending-injecting readers. No axioms. Known finding D7 (poll_stream_len leaves the cursor at the end when its third seek is suspended) "
-              "is reported as KNOWN-FINDING on every run; the sanitizer-level programme theorem of DESIGN.md (C12_sanitize_sched_indep_no_len) is "
-              "represented by C12_prog_sched_indep over arbitrary client programmes, not yet instantiated with the mp4 sanitizer model (other area).")
+              "is reported as KNOWN-FINDING on every run; the sanitizer-level theorem needs the inner reader's length query to be schedule independent, "
+              "which holds for AsyncSkip-native readers and fails for SeekSkipAdapter exactly on D7.")
 TECHNIQUE = "Coq proof by induction on the Pending schedule over poll-level models + differential check under exhaustive small Pending subsets + sanitizer-level sync/async comparison"
 DESIGN_REF = "DESIGN.md section 7 (C12), section 8 (D7), Appendix A"
